@@ -118,8 +118,9 @@ def run_variant(template_path, repo_root, workdir, rlimit=60, extra_args=None, m
     if res.status == 'inconclusive' and res.resource_fns and factor > 1 and not [e for e in res.errors if not e.get('resource')]:
         m_rl = re.search(r'^//@ rlimit (\d+)', open(template_path).read(), re.M)
         base = max(rlimit, int(m_rl.group(1))) if m_rl else rlimit
-        res2 = _run_variant_once(template_path, repo_root, workdir, base * factor, extra_args, mutate, threads, variant)
-        res2.retried = 'solver resource limit at rlimit %d in %s; repeated with rlimit %d' % (base, ', '.join(res.resource_fns), base * factor)
+        big = max(base + 60, min(base * factor, int(os.environ.get('VERIF_RLIMIT_RETRY_CAP', '360'))))
+        res2 = _run_variant_once(template_path, repo_root, workdir, big, extra_args, mutate, threads, variant)
+        res2.retried = 'solver resource limit at rlimit %d in %s; repeated with rlimit %d' % (base, ', '.join(res.resource_fns), big)
         res2.wall_s += res.wall_s
         return res2
     return res
